@@ -85,13 +85,32 @@ def _rec_calls(stmts, fname):
 
 
 def _arg(call, f, pname):
-    idx = f.params.index(pname)
-    if idx < len(call.args):
-        return call.args[idx]
+    pos = [a.arg for a in f.node.args.posonlyargs + f.node.args.args]
+    if pname in pos:
+        idx = pos.index(pname)
+        if idx < len(call.args) and not any(isinstance(a, ast.Starred) for a in call.args[:idx + 1]):
+            return call.args[idx]
     for kw in call.keywords:
         if kw.arg == pname:
             return kw.value
     return None
+
+
+def evaluator_roles(f):
+    """(language graph, model, targets, expression) parameters of the evaluator by ROLE, whatever their order and
+    kind (positional / keyword-only): the expression is the one subscripted with 'type', the targets the one iterated
+    or returned next to expr['name']; the other two by their names."""
+    allp = [a.arg for a in f.node.args.posonlyargs + f.node.args.args + f.node.args.kwonlyargs]
+    expr = next((p_ for p_ in allp if any(
+        isinstance(n, ast.Subscript) and isinstance(n.value, ast.Name) and n.value.id == p_
+        and isinstance(n.slice, ast.Constant) and n.slice.value == 'type' for n in ast.walk(f.node))), None)
+    lg = next((p_ for p_ in allp if 'lang' in p_), None)
+    model = next((p_ for p_ in allp if 'model' in p_), None)
+    rest = [p_ for p_ in allp if p_ not in (expr, lg, model)]
+    targets = rest[0] if len(rest) == 1 else next((p_ for p_ in rest if 'target' in p_ or 'asset' in p_), None)
+    if None in (expr, lg, model, targets) or len(allp) != 4:
+        return None
+    return lg, model, targets, expr
 
 
 def _is_sub(e, base, key):
@@ -103,9 +122,10 @@ def run(ctx) -> list[Inst]:
     prog = ctx.prog
     f = prog.func(EVAL)
     rel = f.module.relpath
-    if len(f.params) != 4:
+    roles = evaluator_roles(f)
+    if roles is None:
         raise AnalysisError(f'{EVAL}: expected 4 parameters (lang_graph, model, targets, expression)')
-    P_LG, P_MODEL, P_T, P_E = f.params
+    P_LG, P_MODEL, P_T, P_E = roles
     cases = _cases(f, P_E)
     need = ['attackStep', 'union', 'intersection', 'difference', 'collect', 'field', 'subType', 'variable']
     miss = [k for k in need if k not in cases]
